@@ -1,4 +1,4 @@
-import GixModel.Lemmas.C24Ext
+import GixModel.Lemmas.C24Tree
 /-
 C24 — Index files decode to exactly what git wrote, for any thread limit.  PROPERTY THEOREMS ONLY.
 
@@ -205,6 +205,24 @@ example : WfReucPath { name := [97, 47, 98], stages := [some (0o100644, List.rep
     intro s hs
     simp only [List.mem_cons, List.not_mem_nil, or_false] at hs
     rcases hs with rfl | rfl | rfl <;> simp [WfStage, hashLen]
+
+/-- The cache-tree extension: what git's `write_one` writes for a tree (names without NUL and
+distinct among siblings, valid nodes with a count below 2^31 and a 20-byte id) decodes to that
+tree in gitoxide's canonical form — children sorted by name at every level, the null id for
+invalidated nodes. -/
+theorem tree_ext_roundtrip (t : Tree) (hwf : WfTree t) :
+    treeDecodeOpt (gitEncodeTree t) = some (canonTree t) :=
+  treeDecodeOpt_encoded t hwf
+
+example : WfTree (.mk [] (List.replicate 20 1) (some 3)
+    [.mk [98] (List.replicate 20 2) (some 1) [], .mk [97, 97] [] none []]) := by
+  simp [WfTree, WfTrees, Tree.name, hashLen]
+
+/-- `file_roundtrip` with the cache-tree content spelled out. -/
+theorem file_roundtrip_tree (t : Tree) (hwf : WfTree t) (reuc : Option (List ReucPath))
+    (sparse recordIeot recordEoie : Bool) :
+    (expectedExts (some t) reuc sparse recordIeot recordEoie).tree = some (canonTree t) := by
+  simp only [expectedExts, Option.bind_some, treeDecodeOpt_encoded t hwf]
 
 /-- `file_roundtrip` with the resolve-undo content spelled out. -/
 theorem file_roundtrip_reuc (tree : Option Tree) (ps : List ReucPath) (hwf : ∀ p ∈ ps, WfReucPath p)
